@@ -224,9 +224,17 @@ def finish(prop, tier, seed, obs, errs, t0, info, replay_fn=None):
         os.unlink(old)
     stats = [o for o in obs if "_stats" in o]
     notapp = [o for o in obs if "_notapplicable" in o]
-    obs = [o for o in obs if "_stats" not in o and "_notapplicable" not in o]
+    lost = [o for o in obs if "_prooflost" in o]
+    obs = [o for o in obs if "_stats" not in o and "_notapplicable" not in o and "_prooflost" not in o]
+    # engine F is a syntactic proof-level analysis: when its pattern no longer matches (a local alias, a restructured getter) the
+    # unbounded claim is LOST, which is not a verdict about the property; the bounded dynamic obligations of the same property decide
+    for o in obs:
+        if o["engine"] == "F" and o["status"] == FAILED:
+            o["status"] = "unproved"
+            lost.append({"_prooflost": o["fn"], "reason": "frame analysis: " + o["detail"][:200]})
     failed = [o for o in obs if o["status"] == FAILED]
     undecided = [o for o in obs if o["status"] == UNDECIDED]
+    unproved = [o for o in obs if o["status"] == "unproved"]
     crashed = [o for o in obs if o["status"] == ERROR]
     violations, known = [], []
     lines = []
@@ -350,6 +358,8 @@ def finish(prop, tier, seed, obs, errs, t0, info, replay_fn=None):
         samples=samples, engine_stats=agg,
         known_findings=sorted(seen_kf), task_errors=errs[:5],
         proof_not_applicable=[dict(function=o["_notapplicable"], reason=o["reason"][:300]) for o in notapp],
+        proof_lost=[dict(function=o["_prooflost"], reason=o["reason"][:300]) for o in lost],
+        unproved_obligations=[dict(id=o["id"], detail=o["detail"][:200]) for o in unproved[:50]],
         exhaustive=False,
     )
     cov.update(info.get("extra", {}))
@@ -362,6 +372,9 @@ def finish(prop, tier, seed, obs, errs, t0, info, replay_fn=None):
     if undecided:
         lines.append("UNDECIDED: %d obligation(s) on paths whose feasibility the solver could not confirm (not verdicts; listed in the evidence), e.g. %s" % (
             len(undecided), undecided[0]["id"]))
+    for o in lost:
+        lines.append("UNPROVED: the engine-V proof of %s is lost on this tree (%s); this is not a verdict about the property - the bounded contract "
+                     "checks of the same function decide" % (o["_prooflost"], o["reason"][:200]))
     for o in notapp:
         lines.append("NOTE: engine V does not apply to %s on this tree (%s); its bounded contract checks still ran" % (
             o["_notapplicable"], o["reason"][:160]))
